@@ -36,6 +36,7 @@ class Conv:
         self.addr = {}        # id(obj) -> address
         self.keep = []        # strong references: an id is never reused within a run
         self.lam = {}         # id(function) -> lambda id
+        self.lamobjs = set()  # ids of callables returned by the evaluation of a lambda node
         self.vm = {}          # id(VMState) -> vm index
         self.hostfns = {}     # id(function) -> name
         F = impl['functions'].FUNCTIONS
@@ -122,7 +123,7 @@ class Conv:
             if id(v) in self.builtin:
                 return {'t': 'builtin', 'name': self.builtin[id(v)]}
             qn = getattr(v, '__qualname__', '')
-            if qn == 'LambdaOp.eval.<locals>.f':
+            if id(v) in self.lamobjs or qn == 'LambdaOp.eval.<locals>.f':
                 return {'t': 'lambda', 'lid': self.lambda_id(v)}
         return {'t': 'opaque', 'type': type(v).__module__ + '.' + type(v).__qualname__}
 
@@ -318,6 +319,11 @@ class Tracer:
                     except BaseException as e:
                         T.on_exit_exc(self_, e)
                         raise
+                    if T.kind_of.get(type(self_)) == 'lambda' and callable(v) and T.conv is not None:
+                        # whatever callable the evaluation of a lambda node returns IS the lambda value
+                        # (recognised by where it comes from, not by how the implementation builds it)
+                        T.conv.lamobjs.add(id(v))
+                        T.conv.keep.append(v)
                     T.on_exit(self_, v)
                     return v
                 return wrapped
